@@ -25,7 +25,7 @@ REQUIRED_MONITORS = ["segment-times-matrix", "segment-imul", "composition", "pat
 
 T17 = [i / 16.0 for i in range(17)]
 T5 = [0.0, 0.25, 0.5, 0.75, 1.0]
-MCLASSES = ["identity", "translate", "rotate", "uniform", "reflect", "aniso", "rot-aniso", "aniso-rot", "shear", "general", "general-neg"]
+MCLASSES = ["identity", "translate", "rotate", "uniform", "reflect", "aniso", "rot-aniso", "aniso-rot", "shear", "general", "general-neg", "extreme"]
 
 
 def strata_minimum(tier):
